@@ -193,12 +193,22 @@ Lemma multiply_coh (a b p : mat) : Coh c es a -> Coh c es b ->
 Proof. intros HA HB E. exact (mul_like_coh a b p _ HA HB E). Qed.
 
 (* mutable iterators only replace elements in place *)
+Lemma drain_mut_len {X} f (posof : X -> Z) show : forall items data d' os,
+  drain_mut f posof show data items = (d', os) -> zlen d' = zlen data.
+Proof.
+  induction items as [|x t IH]; intros data d' os E; cbn [drain_mut] in E.
+  - now injection E as <- _.
+  - destruct (znth_opt (posof x) data); [|now injection E as <- _].
+    destruct (drain_mut f posof show (zupd data (posof x) (f e)) t) as [d1 os1] eqn:E1. injection E as <- _.
+    rewrite (IH _ _ _ E1). apply zlen_zupd.
+Qed.
 Lemma single_mut_len {X} f (posof : X -> Z) show : forall script data items d' os,
   single_mut f posof show data items script = (d', os) -> zlen d' = zlen data.
 Proof.
   induction script as [|w t IH]; intros data items d' os E; cbn [single_mut] in E.
   - now injection E as <- _.
-  - destruct (deque_cmd items w) as [items' r]. destruct r as [[x|]|n|].
+  - destruct (w =? 3); [eapply drain_mut_len; exact E|]. destruct (w =? 4); [eapply drain_mut_len; exact E|].
+    destruct (deque_cmd items w) as [items' r]. destruct r as [[x|]|n|].
     + destruct (znth_opt (posof x) data); [|now injection E as <- _].
       destruct (single_mut f posof show (zupd data (posof x) (f e)) items' t) as [d1 os1] eqn:E1. injection E as <- _.
       rewrite (IH _ _ _ _ E1). apply zlen_zupd.
